@@ -165,6 +165,7 @@ class Bus (objects.DBusObject):
         self.clients = {}  # maps unique_bus_id to client connection
         self.busNames = {}  # maps name to list of queued connections
         self.router = router.MessageRouter()
+        self.matchRuleText = {}  # maps router rule id to its AddMatch string
         self.next_id = 1
         self.obj_handler = objects.DBusObjectHandler(self)
 
@@ -186,6 +187,7 @@ class Bus (objects.DBusObject):
         """
         for rule_id in proto.matchRules:
             self.router.delMatch(rule_id)
+            self.matchRuleText.pop(rule_id, None)
 
         for busName in list(proto.busNames.keys()):
             self.dbus_ReleaseName(busName, proto.uniqueName)
@@ -511,7 +513,27 @@ class Bus (objects.DBusObject):
                         kwargs['args'] = []
                     kwargs['args'].append((int(k[3:]), value))
 
-        self.router.addMatch(caller.sendMessage, **kwargs)
+        rule_id = self.router.addMatch(caller.sendMessage, **kwargs)
+
+        # remembered so that the rule goes away with its connection and can
+        # be found again by RemoveMatch
+        caller.matchRules.add(rule_id)
+        self.matchRuleText[rule_id] = rule
+
+    def dbus_RemoveMatch(self, rule, dbusCaller=None):
+        caller = self.clients[dbusCaller]
+
+        for rule_id in sorted(caller.matchRules):
+            if self.matchRuleText.get(rule_id) == rule:
+                self.router.delMatch(rule_id)
+                caller.matchRules.remove(rule_id)
+                del self.matchRuleText[rule_id]
+                return
+
+        raise DError(
+            'org.freedesktop.DBus.Error.MatchRuleNotFound',
+            'The given match rule wasn\'t found and can\'t be removed',
+        )
 
     def dbus_GetNameOwner(self, busName):
         if busName.startswith(':'):
